@@ -29,6 +29,8 @@ V_legacy == {"T", "F"}
 V_legacyone == {"T"}
 E_all == {"bare", "lp", "lph", "lpo"}
 E_one == {"bare"}
+Race_no == {{}}
+Race_one == {{}} \cup {{e} : e \in Entry}
 Def_no == {FALSE}
 Def_both == BOOLEAN
 NoDev == {}
